@@ -232,6 +232,29 @@ def run_shard(spec, ctx):
             R.expect(pre + "[find(hs, %s), find_last(hs, %s), length(hs)]" % (src(p), src(p)), [rs.find(s, p), rs.find_last(s, p), n],
                      "after-edits:find:%s" % k, ("h-find", S, src(p)))
             ctx.count("edited_sequences")
+            # the sequence expression is evaluated once: an expression that yields another value each time it is
+            # evaluated is indexed / sliced as the value of its one evaluation
+            s2 = (s[::-1] + "q") if k == "str" else (list(reversed(s)) + ["q"])
+            a, i = r.randint(0, n), r.randrange(n)
+            b = r.randint(a, n)
+            pre2 = "def cnt = 0; def nxt() do cnt += 1; [%s, %s][cnt - 1] end; " % (S, src(s2))
+            R.expect(pre2 + "[nxt()[%d to *], cnt]" % a, [rs.slice_(s, a), 1], "evaluated-once:slice-open:" + k, ("once-slo", S, a))
+            R.expect(pre2 + "[nxt()[%d to %d], cnt]" % (a, b), [rs.slice_(s, a, b), 1], "evaluated-once:slice:" + k, ("once-sl", S, a, b))
+            R.expect(pre2 + "[nxt()[%d], cnt]" % i, [rs.deref(s, i), 1], "evaluated-once:deref:" + k, ("once-deref", S, i))
+            R.expect(pre2 + "[nxt()[-1], nxt()[-1], cnt]", [s[-1], s2[-1], 2], "evaluated-once:two-calls:" + k, ("once-two", S))
+            # find / find_last with a key function that itself searches (the outer search goes on with its own key)
+            if k == "list":
+                rows = [[r.choice(["x", "y", 0]) for _ in range(r.randint(1, 4))] for _ in range(r.randint(2, 5))]
+                target = r.randint(0, 3)
+                keys_ = [(row.index("x") if "x" in row else -1) for row in rows]
+                want_f = next((j for j, kv in enumerate(keys_) if kv == target), -1)
+                want_l = next((j for j in reversed(range(len(keys_))) if keys_[j] == target), -1)
+                R.expect("find(%s, %d, key = fn(row) find(row, 'x'))" % (src(rows), target), want_f, "find:key-calls-find", ("find-reentrant", src(rows), target))
+                R.expect("find_last(%s, %d, key = fn(row) find_last(row, 'x'))" % (src(rows), target),
+                         next((j for j in reversed(range(len(rows))) if (max([q for q, e in enumerate(rows[j]) if e == "x"], default=-1)) == target), -1),
+                         "find_last:key-calls-find_last", ("findl-reentrant", src(rows), target))
+                R.expect("find(%s, %d, key = fn(row) find_last(row, 'x') - find_last(row, 'x') + find(row, 'x'))" % (src(rows), target), want_f,
+                         "find:key-calls-both", ("find-reentrant2", src(rows), target))
         ctx.count("random_sequences", spec["n"])
 
 
